@@ -97,12 +97,29 @@ impl Stats {
         for (k, v) in o.viol_by_sig {
             *self.viol_by_sig.entry(k).or_default() += v;
         }
+        // keep, per signature, the two examples with the smallest keys (shortest first): the reported
+        // example and its replay file then do not depend on the order in which work units finish
+        let smaller = |a: &Viol, b: &Viol| (a.key.len(), &a.key) < (b.key.len(), &b.key);
         for v in o.viol_examples {
             let same = self.viol_examples.iter().filter(|x| x.sig == v.sig).count();
-            if same < 2 && self.viol_examples.len() < 40 {
-                self.viol_examples.push(v);
+            if same < 2 {
+                if self.viol_examples.len() < 40 {
+                    self.viol_examples.push(v);
+                }
+            } else if let Some(worst) = self
+                .viol_examples
+                .iter()
+                .enumerate()
+                .filter(|(_, x)| x.sig == v.sig)
+                .max_by(|a, b| (a.1.key.len(), &a.1.key).cmp(&(b.1.key.len(), &b.1.key)))
+                .map(|(i, _)| i)
+            {
+                if smaller(&v, &self.viol_examples[worst]) {
+                    self.viol_examples[worst] = v;
+                }
             }
         }
+        self.viol_examples.sort_by(|a, b| (&a.sig, a.key.len(), &a.key).cmp(&(&b.sig, b.key.len(), &b.key)));
         for (k, v) in o.known {
             let e = self.known.entry(k).or_default();
             if e.count == 0 {
